@@ -4,10 +4,10 @@ from ..compare import judge_strict
 from ..refdec import ELLIPSIS, ref_decode
 
 
-def strict_pair(L, tname, data, cc=None, enc=False):
+def strict_pair(L, tname, data, cc=None, enc=False, root=""):
     O.reset_state()
-    ref = ref_decode(L, tname, data, command_code=cc, enc=enc)
-    obs = O.run_decode(tname, data, command_code=cc, enc=enc, strict=True)
+    ref = ref_decode(L, tname, data, command_code=cc, enc=enc, root=root)
+    obs = O.run_decode(tname, data, command_code=cc, enc=enc, strict=True, root=root)
     return ref, obs
 
 
@@ -17,12 +17,12 @@ def payload_of(tname, data, cc, enc, **extra):
     return d
 
 
-def report(ctx, prop, L, tname, data, cc, enc, ref, obs, check_remaining=False, extra=None):
+def report(ctx, prop, L, tname, data, cc, enc, ref, obs, check_remaining=False, extra=None, root=""):
     j = judge_strict(L, obs, ref, check_remaining=check_remaining)
     if j is None:
         return True
     sig, msg = j
-    ctx.problem(f"{prop}:{sig}", f"{msg}; input {bytes(data).hex()} as {tname} cc={cc} enc={enc}" + (f" [{extra}]" if extra else ""), payload_of(tname, data, cc, enc))
+    ctx.problem(f"{prop}:{sig}", f"{msg}; input {bytes(data).hex()[:4000]} as {tname} cc={cc} enc={enc}" + (f" root_path={root!r}" if root else "") + (f" [{extra}]" if extra else ""), payload_of(tname, data, cc, enc, root=root))
     return False
 
 
@@ -64,6 +64,6 @@ def accounting_problem(L, data, obs):
 
 def replay_generic(ctx, prop, L, payload, check_remaining=False):
     tname, data, cc, enc = payload["type"], payload["data"], payload.get("cc"), payload.get("enc")
-    ref, obs = strict_pair(L, tname, data, cc, enc)
+    ref, obs = strict_pair(L, tname, data, cc, enc, root=payload.get("root") or "")
     report(ctx, prop, L, tname, data, cc, enc, ref, obs, check_remaining=check_remaining)
     return ref, obs
